@@ -6,18 +6,18 @@ From Coq Require Import ZArith List Bool Arith.
 From EV Require Import Base.Arith Model.KrylovExp Proofs.KrylovExpProofs.
 
 (* Control contract of krylov_exp_impl, for EVERY arithmetic [ar] (binary64 or reals), every oracle
-   stream n2/err1/err2 and every max_krylov_dim >= 1: it returns normally (the constructor assert never
+   stream n2/err1/err2/err2c, both variants of the estimate ([fixed]) and every max_krylov_dim >= 1: it returns normally (the constructor assert never
    fires); converged = true iff some iteration j < max_dim had n2_j < norm_tol or err_j < exp_tol;
    then iteration_count is the least such j plus one and happy_breakdown says whether that iteration
    stopped on n2_j < norm_tol; otherwise iteration_count = max_dim; happy_breakdown -> converged. *)
 Theorem C07_converged_iff_estimate :
-  forall (A : Type) (ar : Arith A) (n2 err1 err2 : nat -> A) (norm_tol exp_tol : A) (max_dim : nat),
+  forall (A : Type) (ar : Arith A) (fixed : bool) (n2 err1 err2 err2c : nat -> A) (norm_tol exp_tol : A) (max_dim : nat),
   0 < max_dim ->
-  exists r, kexp_impl ar n2 err1 err2 norm_tol exp_tol max_dim = Ok r /\
+  exists r, kexp_impl ar fixed n2 err1 err2 err2c norm_tol exp_tol max_dim = Ok r /\
     (k_converged r = true <->
-       exists j, j < max_dim /\ trigger ar n2 err1 err2 norm_tol exp_tol j = true) /\
+       exists j, j < max_dim /\ trigger ar fixed n2 err1 err2 err2c norm_tol exp_tol j = true) /\
     (k_converged r = true ->
-       exists j0, j0 < max_dim /\ first_trigger ar n2 err1 err2 norm_tol exp_tol 0 j0 /\
+       exists j0, j0 < max_dim /\ first_trigger ar fixed n2 err1 err2 err2c norm_tol exp_tol 0 j0 /\
                   k_iters r = S j0 /\ k_happy r = breakdown_at ar n2 norm_tol j0) /\
     (k_converged r = false -> k_iters r = max_dim /\ k_happy r = false) /\
     (k_happy r = true -> k_converged r = true).
@@ -25,18 +25,66 @@ Proof. exact kexp_impl_spec. Qed.
 
 (* max_krylov_dim = 0: the loop body never runs and the tail reads the unbound local `expd`. *)
 Theorem C07_max_dim_zero_raises :
-  forall (A : Type) (ar : Arith A) (n2 err1 err2 : nat -> A) (norm_tol exp_tol : A),
-  kexp_impl ar n2 err1 err2 norm_tol exp_tol 0 = Err E_UNBOUND.
+  forall (A : Type) (ar : Arith A) (fixed : bool) (n2 err1 err2 err2c : nat -> A) (norm_tol exp_tol : A),
+  kexp_impl ar fixed n2 err1 err2 err2c norm_tol exp_tol 0 = Err E_UNBOUND.
 Proof. exact kexp_impl_zero. Qed.
 
 (* The public entry point krylov_exp, for every max_krylov_dim including 0: it returns (a converged
    result) iff some iteration triggered; in every other case it raises (RecursionError, or the
    UnboundLocalError of max_dim = 0) — it never returns a vector from a non-converged run. *)
 Theorem C07_public_raises_iff_not_converged :
-  forall (A : Type) (ar : Arith A) (n2 err1 err2 : nat -> A) (norm_tol exp_tol : A) (max_dim : nat),
-  ((exists j, j < max_dim /\ trigger ar n2 err1 err2 norm_tol exp_tol j = true) ->
-     exists r, kexp_public ar n2 err1 err2 norm_tol exp_tol max_dim = Ok r /\ k_converged r = true) /\
-  (~ (exists j, j < max_dim /\ trigger ar n2 err1 err2 norm_tol exp_tol j = true) ->
-     kexp_public ar n2 err1 err2 norm_tol exp_tol max_dim =
+  forall (A : Type) (ar : Arith A) (fixed : bool) (n2 err1 err2 err2c : nat -> A) (norm_tol exp_tol : A) (max_dim : nat),
+  ((exists j, j < max_dim /\ trigger ar fixed n2 err1 err2 err2c norm_tol exp_tol j = true) ->
+     exists r, kexp_public ar fixed n2 err1 err2 err2c norm_tol exp_tol max_dim = Ok r /\ k_converged r = true) /\
+  (~ (exists j, j < max_dim /\ trigger ar fixed n2 err1 err2 err2c norm_tol exp_tol j = true) ->
+     kexp_public ar fixed n2 err1 err2 err2c norm_tol exp_tol max_dim =
        Err (if Nat.eqb max_dim 0 then E_UNBOUND else E_RECURSION)).
 Proof. exact kexp_public_spec. Qed.
+
+(* The control outcome (converged, happy_breakdown, iteration_count) of the FULL model of
+   krylov_exp_impl (vectors, T, matrix_exp oracle) is the control model run on the streams the full
+   model itself computes: the three theorems above therefore speak about krylov_exp_impl's flags. *)
+Theorem C07_full_model_follows_control :
+  forall (A : Type) (ar : Arith A) (K V : Type) (kone : K) (kmul : K -> K -> K) (ofreal : A -> K)
+         (kabs : K -> A) (vzero : V) (vadd vsub : V -> V -> V) (vscale : K -> V -> V) (vdiv : V -> A -> V)
+         (Aop : V -> V) (inner : V -> V -> K) (nrm : V -> A) (mexp : (nat -> nat -> K) -> nat -> nat -> K)
+         (fixed herm : bool) (norm_tol exp_tol n0 : A) (st0 : kstate K V) (d : A)
+         (fuel j : nat) (st : kstate K V) (k : kres) (r : V) (st' : kstate K V),
+  ghost kone kmul ofreal kabs vzero vadd vsub vscale vdiv Aop inner nrm mexp herm st0 j = Ok st ->
+  floop ar kone kmul ofreal kabs vzero vadd vsub vscale vdiv Aop inner nrm mexp
+        fixed herm norm_tol exp_tol n0 fuel j st = Ok (k, r, st') ->
+  let gs := gstream kone kmul ofreal kabs vzero vadd vsub vscale vdiv Aop inner nrm mexp herm st0 d in
+  kloop ar fixed (gs (@b_n2 A K V)) (gs (@b_err1 A K V)) (gs (@b_err2 A K V)) (gs (@b_err2c A K V))
+        norm_tol exp_tol fuel j = Ok k.
+Proof. exact floop_control. Qed.
+
+(* Arnoldi relation, by construction.  Over ANY scalars K, vectors V with the module laws listed as
+   premises (no orthogonality, no linearity of op, inner/nrm arbitrary functions), for both the full
+   (is_hermitian = False) and the two-term (is_hermitian = True) variant — the two-term variant needs NO
+   additional premise: whenever krylov_exp_impl returns, with m = number of completed iterations
+   (iteration_count, minus one on happy breakdown),
+     - there are m + 1 Lanczos vectors,
+     - op(v_j) = sum_{k<=j} T[k,j] v_k + T[j+1,j] v_{j+1}  for every j < m,
+     - T is upper Hessenberg (T[i,j] = 0 for i > j + 1).
+   The only numeric premise: a norm that is not below norm_tolerance is invertible
+   (w / n2 * n2 = w), which is what the breakdown test guarantees in a field when norm_tol > 0. *)
+Theorem C07_arnoldi_relation :
+  forall (A : Type) (ar : Arith A) (K V : Type) (kzero kone : K) (kmul : K -> K -> K) (ofreal : A -> K)
+         (kabs : K -> A) (vzero : V) (vadd vsub : V -> V -> V) (vscale : K -> V -> V) (vdiv : V -> A -> V)
+         (Aop : V -> V) (inner : V -> V -> K) (nrm : V -> A) (mexp : (nat -> nat -> K) -> nat -> nat -> K)
+         (runit : A -> Prop),
+  (forall u v w, vadd u (vadd v w) = vadd (vadd u v) w) ->
+  (forall u v, vadd u v = vadd v u) ->
+  (forall v, vadd vzero v = v) ->
+  (forall v, vscale kzero v = vzero) ->
+  (forall u v, vadd (vsub u v) v = u) ->
+  (forall w c, runit c -> vscale (ofreal c) (vdiv w c) = w) ->
+  forall (fixed : bool) (v : V) (herm : bool) (exp_tol norm_tol : A) (max_dim : nat) (k : kres) (r : V)
+         (st' : kstate K V),
+  (forall c, a_ltb ar c norm_tol = false -> runit c) ->
+  kexp_full ar kzero kone kmul ofreal kabs vzero vadd vsub vscale vdiv Aop inner nrm mexp
+            fixed v herm exp_tol norm_tol max_dim = Ok (k, r, st') ->
+  length (s_vs st') = S (completed k) /\
+  (forall j, j < completed k -> relation vzero vadd vscale Aop (s_T st') (s_vs st') j) /\
+  (forall i j, S j < i -> s_T st' i j = kzero).
+Proof. exact kexp_full_relation. Qed.
